@@ -1891,6 +1891,47 @@ class Gen:
                         s = d
                 yield dict(k="probe_enant", s=s)
             return
+        if rng.random() < 0.18 and self.room():
+            # one crowded centre (4 to 6 ligands, elements drawn with
+            # repetition: chiral and achiral arrangements both occur), static
+            # or inside a stereo change
+            deg = rng.choice((4, 5, 5, 6, 6))
+            dcls = {4: rng.choice(("Tetrahedral", "SquarePlanar")), 5: "TrigonalBipyramidal", 6: "Octahedral"}[deg]
+            ids = list(self.cfg["ids"])
+            while len(ids) < deg + 1:
+                ids.append(max(ids) + 1)
+            ids = rng.sample(ids, deg + 1)
+            c0, lig = ids[0], ids[1:]
+            pool_ = rng.sample([1, 9, 17, 35, 53, 8], rng.choice((1, 2, 2, 3, 4)))
+            atoms = [[c0, rng.choice((6, 15, 16, 26, 78))]] + [[x, rng.choice(pool_)] for x in lig]
+            bonds = [[c0, x, None] for x in lig]
+            rng.shuffle(lig)
+            d = [dcls, [c0, *lig], rng.choice((1, -1)) if geom.CHIRAL[dcls] else 0]
+            s = self.slot_id()
+            yield dict(k="spec", dst=s, cls="SMG", atoms=atoms, bonds=bonds, astereo=[d])
+            if self.w.graph(s) is None:
+                return
+            if "SCRG" in self.cfg["classes"] and self.room() and rng.random() < 0.6:
+                t = self.slot_id()
+                yield dict(k="ctor", src=s, dst=t, cls="SCRG")
+                if self.w.graph(t) is not None:
+                    if rng.random() < 0.75:
+                        op = dict(k="set_achange", s=t, broken=None, fleeting=None, formed=None)
+                        op[rng.choice(ROLES).lower()] = d
+                        if rng.random() < 0.3:
+                            lig2 = list(lig)
+                            rng.shuffle(lig2)
+                            other = [r_ for r_ in ROLES if op[r_.lower()] is None]
+                            op[rng.choice(other).lower()] = [dcls, [c0, *lig2], d[2]]
+                        yield dict(k="del_astereo", s=t, a=c0)
+                        yield op
+                    s = t
+            if self.w.graph(s) is not None:
+                yield dict(k="probe_enant", s=s)
+                if rng.random() < 0.5:
+                    yield dict(k="probe_twin", s=s, seed=rng.randrange(2 ** 31), route=rng.choice(("fresh", "relabel")))
+                    yield dict(k="probe_enant", s=s)
+            return
         c = self.graphs(kinds=("SMG", "SCRG"), nonempty=True)
         if not c:
             yield from self.tx_build()
